@@ -67,7 +67,7 @@ func init() { Register(c11{}) }
 func (c11) ID() string       { return "C11" }
 func (c11) New() interface{} { return &C11Case{} }
 func (c11) Rule() string {
-	return "each run: seeded input files (nucleotide and protein alignments with tied columns, duplicate rows and gaps, in FASTA / Phylip; unaligned sequences holding an ORF; map, name, coordinate, partition and count files) and one command line out of ~110 templates covering the documented commands (with --seed for the commands that draw). Mode proc (most runs): the CLI binary built from the working tree is executed three times in fresh directories - A and A' with (threads 1, map seed a, clock c), B with (threads 2-16, another GOMAXPROCS, map seed b, clock c + 1 h 1 s); exit status, stdout and every file written must be byte-identical; a difference is bisected to the seam that causes it. Mode pipeline-reformat: a chain of reformat commands through 2-4 formats and back must reproduce the first file; pipeline-distboot: build seqboot + compute distance per replicate must equal build distboot with the same seed. Mode sched: compute distance, build distboot, phase and phasent run in-process through cmd.RootCmd inside a synctest bubble under two seeded goroutine schedules and thread counts and their outputs are compared. Distinct = distinct (template, input shape, configuration pair); non-trivial = the two configurations differ in map seed, clock and thread count and the command succeeded."
+	return "each run: seeded input files (nucleotide and protein alignments with tied columns, duplicate rows and gaps, in FASTA / Phylip; unaligned sequences holding an ORF; map, name, coordinate, partition and count files) and one command line out of ~110 templates covering the documented commands (with --seed for the commands that draw). Mode proc (most runs): the CLI binary built from the working tree is executed three times in fresh directories - A and A' with (threads 1, map seed a, clock c), B with (threads 2-16, another GOMAXPROCS, map seed b, clock c + 1 h 1 s); exit status, stdout and every file written must be byte-identical; a difference is bisected to the seam that causes it. Mode pipeline-reformat: a chain of reformat commands through 2-4 formats and back must reproduce the first file; pipeline-distboot: build seqboot + compute distance per replicate must equal build distboot with the same seed. Mode sched: compute distance, build distboot, phase and phasent run in-process through cmd.RootCmd inside a synctest bubble under two seeded goroutine schedules and thread counts and their outputs are compared; the same mode runs as a batch of its own under the race detector. 5 % of the proc runs replace the input by one goalign refuses (stale TAXA block, short FASTA row, cut Phylip row). Distinct = distinct (template, input shape, configuration pair); non-trivial = the two configurations differ in map seed, clock and thread count and the command succeeded."
 }
 
 // ---------------------------------------------------------------------
